@@ -128,6 +128,18 @@ Definition Encoder_unpack_validate (buffer : list N) : option (header * Encoder_
   let h := parse_header (firstn HEADER_SIZE buffer) in
   Some (h, Encoder_validate_crc h buffer 0).
 
+(* header.unpack(buffer, validate_crc=True) on an EXISTING header object: struct.unpack_from assigns every field but
+   message_type before the CRC is validated; message_type is assigned only after validation succeeded, so after a
+   failed validation the object keeps its old type.  The object does not store the sync bytes (pack() always writes
+   the constants).  None = struct.error (fewer than 24 bytes), object untouched. *)
+Definition Encoder_unpack_into (old : header) (buffer : list N) : option (header * Encoder_vc) :=
+  match Encoder_unpack_validate buffer with
+  | None => None
+  | Some (h, v) =>
+      let ty := match v with VcOk => h_type h | _ => h_type old end in
+      Some (mkHeader SYNC0 SYNC1 (h_reserved h) (h_crc h) (h_proto h) (h_msgver h) ty (h_seq h) (h_psize h) (h_source h), v)
+  end.
+
 (* ---- crc.cc / crc.h ---------------------------------------------------------------------------- *)
 Definition Encoder_size_t (x : N) : N := x mod 2 ^ CPP_SIZE_T_BITS.
 
